@@ -163,6 +163,34 @@ Theorem C06_ring_link : forall cs r A rest,
 Proof. exact a_link_cases. Qed.
 Print Assumptions C06_ring_link.
 
+(* Move(n) on an initialised node lands n mod Len nodes further along its ring
+   (Z.modulo: for negative n that is |n| steps backwards) and writes nothing. *)
+Theorem C06_ring_move : forall h a r n c,
+  RRep h a -> In r (concat (ra_cycles a)) -> fst (ext (ra_cycles a) r) = c ->
+  ring_Move (Some r) n h = Ok (Some (nth (Z.to_nat (n mod Z.of_nat (length c))) c r), h).
+Proof. exact ring_move_mod. Qed.
+Print Assumptions C06_ring_move.
+
+(* Unlink(n), n > 0, on the ring r :: A removes the n mod Len nodes that follow r;
+   they form a ring of their own; the result is the old r.Next(). *)
+Theorem C06_ring_unlink : forall h a r n A rest,
+  RRep h a -> In r (concat (ra_cycles a)) -> ext (ra_cycles a) r = (r :: A, rest) -> (0 < n)%Z ->
+  let k := Z.to_nat (n mod Z.of_nat (S (length A))) in
+  exists h', ring_Unlink (Some r) n h = Ok (Some (hd r A), h') /\
+             RRep h' (RA ((r :: skipn k A) :: cons_ne (firstn k A) rest) (ra_vals a)) /\ length h' = length h.
+Proof. exact ring_unlink_mod. Qed.
+Print Assumptions C06_ring_unlink.
+
+(* Len and Do of a non-nil node (a zero Ring counts as a one-element ring): the length
+   and the values of its cycle, starting at the node; neither runs out of fuel. *)
+Theorem C06_ring_len_do : forall h a r,
+  RRep h a -> r < length h ->
+  exists h', ring_Len (Some r) h = Ok (Z.of_nat (length (fst (ext (ra_cycles a) r))), h') /\
+             ring_Do (Some r) h = Ok (map (ra_val a) (fst (ext (ra_cycles a) r)), h') /\
+             RRep h' (RA (a_touch (ra_cycles a) r) (ra_vals a)) /\ length h' = length h.
+Proof. exact LenDo_sim. Qed.
+Print Assumptions C06_ring_len_do.
+
 (* Non-vacuity: a covered history with a zero-value list, a foreign handle, a
    removed handle, a never-inserted Element, a nil handle and a self
    PushBackList; model and specification agree on it (evaluated). *)
